@@ -5,6 +5,7 @@
 package c06
 
 import (
+	"context"
 	"fmt"
 	"sync"
 	"testing"
@@ -228,6 +229,77 @@ func TestC06_ConcurrentDiscard(t *testing.T) {
 				t.Fatalf("VERIF-VIOLATION C06: producer %d's item #%d delivered after its item #%d (policy %s)", pr, i, prev, policy)
 			}
 			last[pr] = i
+		}
+	})
+}
+
+
+// GateLayout is a harness layout plugin whose ToBytes parks until its gate is opened: it stalls
+// the worker of loggers that own their appenders (rolling-file logger), where no harness appender
+// can be placed.
+type GateLayout struct {
+	log.TextLayout
+}
+
+var (
+	layoutGate    chan struct{}
+	layoutEntered chan struct{}
+)
+
+func (g *GateLayout) ToBytes(e *log.Event) []byte {
+	select {
+	case layoutEntered <- struct{}{}:
+	default:
+	}
+	<-layoutGate
+	return g.TextLayout.ToBytes(e)
+}
+
+func init() { log.RegisterPlugin[GateLayout]("GateLayout", log.PluginTypeLayout) }
+
+var tagRoll = log.RegisterTag("_c06_roll")
+
+// TestC06_RollingAsyncPolicy: the overflow policy configured on a rolling-file logger in async mode
+// must be the policy of its buffer: with a discard policy the log call returns although the worker
+// is stalled (here: inside the logger-level layout) and the buffer is full.
+func TestC06_RollingAsyncPolicy(t *testing.T) {
+	vk.Rule(rule)
+	base := vk.Scratch("c06r")
+	rapid.Check(t, func(t *rapid.T) {
+		policy := rapid.SampledFrom([]string{"Discard", "DiscardOldest", "default"}).Draw(t, "policy")
+		n := rapid.IntRange(150, 600).Draw(t, "events")
+		separate := rapid.Bool().Draw(t, "separate")
+		log.Destroy()
+		layoutGate = make(chan struct{})
+		layoutEntered = make(chan struct{}, 1)
+		m := map[string]string{"enableCaller": "false", "appender.unused.type": "Discard",
+			"logger.c06h.type": "RollingFile", "logger.c06h.tags": "_c06_roll,_c06_t", "logger.c06h.fileDir": base, "logger.c06h.fileName": "r.log", "logger.c06h.rotation": "h",
+			"logger.c06h.async": "true", "logger.c06h.bufferSize": "100", "logger.c06h.separate": fmt.Sprint(separate), "logger.c06h.layout.type": "GateLayout"}
+		if policy != "default" {
+			m["logger.c06h.bufferFullPolicy"] = policy // the declared default is Discard
+		}
+		if err := log.Refresh(m); err != nil {
+			t.Fatalf("VERIF-INCONCLUSIVE C06: %v", err)
+		}
+		done, p := vk.Within(20*time.Second, func() {
+			for i := 0; i < n; i++ {
+				log.Warn(context.Background(), tagRoll, log.Int("id", i))
+			}
+		})
+		vk.Eval()
+		vk.Class("rolling-async-policy:" + policy)
+		vk.NonTrivial(fmt.Sprintf("rolling-async/%s/%d/%v", policy, n, separate))
+		if p != nil {
+			close(layoutGate)
+			t.Fatalf("VERIF-VIOLATION C06: log call panicked: %v", p)
+		}
+		if !done {
+			vk.HardFail("c06-hang", map[string]any{"policy": policy, "events": n},
+				"C06: rolling-file logger (async, bufferFullPolicy=%s): %d log calls did not return within 20 s while the worker was stalled - the call waited for the appender although a discard policy is configured", policy, n)
+		}
+		close(layoutGate)
+		if d, _ := vk.Within(30*time.Second, log.Destroy); !d {
+			vk.HardFail("c06-hang", map[string]any{"policy": policy}, "C06: Destroy did not return after the gate opened")
 		}
 	})
 }
